@@ -289,9 +289,20 @@ structure OutSample where
   /-- cpu delta in ns as handed to `CpuDelta::from_nanos` (the profile stores `cpu / 1000` µs) -/
   cpu : Nat
   frames : List Frame
-  /-- ghost copy of `USample.synth` (off-CPU sample synthesized from a group); not printed -/
-  synth : Bool := false
+  /-- copy of `USample.kind`: `marker` = the stack went to `Profile::set_marker_stack` (`t` identifies the marker
+  on its thread; `weight` / `cpu` unread), otherwise to `Profile::add_sample`; recorded / offCpu is ghost -/
+  kind : ItemKind := .recorded
 deriving Repr, DecidableEq
+
+/-- ghost copy of `USample.synth` (not the sample made from a main-event SAMPLE record); not printed -/
+def OutSample.synth (o : OutSample) : Bool := o.kind != .recorded
+def OutSample.marker (o : OutSample) : Bool := o.kind == .marker
+@[simp] theorem OutSample.synth_mk (t weight cpu : Nat) (frames : List Frame) (kind : ItemKind) :
+    (OutSample.mk t weight cpu frames kind).synth = (kind != .recorded) := rfl
+@[simp] theorem OutSample.marker_mk (t weight cpu : Nat) (frames : List Frame) (kind : ItemKind) :
+    (OutSample.mk t weight cpu frames kind).marker = (kind == .marker) := rfl
+theorem OutSample.marker_of_not_synth (o : OutSample) (h : o.synth = false) : o.marker = false := by
+  unfold OutSample.synth at h; unfold OutSample.marker; cases hk : o.kind <;> simp_all
 
 /-- `LibMappingOpQueueIter::next_op_if_at_or_before` + `process_ops`: consume the queue prefix with
 `ts ≤ sample ts` -/
@@ -300,15 +311,19 @@ def processOps (maps : List MapAdd) (q : List (Nat × MapAdd)) (ts : Nat) : List
   | [] => (maps, [])
   | (t, op) :: rest => if t > ts then (maps, q) else processOps (applyAdd maps op) rest ts
 
-/-- one parked / live buffer: returns the (thread entry, sample) pairs in buffer order; `pm` = the perf-map
-level of the hierarchy (never changed by `process_ops`) -/
+/-- one parked / live buffer: returns the (thread entry, item) pairs in buffer order; `pm` = the perf-map
+level of the hierarchy (never changed by `process_ops`). process_sample_data.rs:84-115, statement by statement:
+`process_ops(sample.timestamp_mono)`, `convert_stack`, `StackDepthLimitingFrameIter::new(…, frames, …)` — the
+limiter wraps the converted frames of **every** item, with the recorded stack length as hint
+(`ConvertedStackIter::size_hint`), **before** the `match sample_or_marker`; the two arms differ only in where the
+stack handle goes (`add_sample` / `set_marker_stack`), which is the `kind` carried to the output. -/
 def flushBuffer (pm : List MapAdd) : List MapAdd → List (Nat × MapAdd) → List USample → List (Nat × OutSample)
   | _, _, [] => []
   | maps, q, u :: us =>
     let r := processOps maps q u.tmono
     let frames := convertStack r.1 pm u.stack
     (u.th, { t := u.t, weight := u.weight, cpu := u.cpu, frames := depthLimit depthN frames u.stack.length,
-             synth := u.synth })
+             kind := u.kind })
       :: flushBuffer pm r.1 r.2 us
 
 /-- no frame of any sample of the buffer overflows the `u32` addition of `convert_address` -/
@@ -355,6 +370,9 @@ def flushBufferCpu (cfg : Config) (pm : List MapAdd) :
   | maps, q, u :: us =>
     let r := processOps maps q u.tmono
     let frames := convertStackX (some (.tlabel u.tlabel)) r.1 pm u.stack
+    -- marker items are not copied to the CPU tracks (`handle_other_event_sample` has no per-CPU part); they
+    -- still advance the mapping queue
+    if u.marker then flushBufferCpu cfg pm r.1 r.2 us else
     (cpuOf cfg u.tmono, { t := u.t, weight := 1, cpu := 0, frames := depthLimit depthN frames u.stack.length })
       :: flushBufferCpu cfg pm r.1 r.2 us
 
@@ -379,6 +397,8 @@ structure View where
   pend : Option Nat
   /-- in flush order (the serializer sorts by time; compare as sorted lists) -/
   samples : List OutSample
+  /-- the stacks attached to markers of this thread (`set_marker_stack`), in flush order -/
+  markers : List OutSample := []
 deriving Repr
 
 def viewOf (s : St) (out : List (Nat × OutSample)) (i : Nat) (te : TEntry) : Option View :=
@@ -389,7 +409,8 @@ def viewOf (s : St) (out : List (Nat × OutSample)) (i : Nat) (te : TEntry) : Op
     some { pid := idStr pe.pid pe.suffix, tid := tidS, pidBase := pe.pid, tidBase := te.tid, isMain := te.isMain,
            name := if te.isMain then pe.name else te.name.getD ("Thread <" ++ tidS ++ ">"),
            processName := pe.name, start := te.start, end_ := te.end_, pstart := pe.start, pend := pe.end_,
-           samples := (out.filter (fun o => o.1 == i)).map (·.2) }
+           samples := ((out.filter (fun o => o.1 == i)).map (·.2)).filter (fun o => !o.marker),
+           markers := ((out.filter (fun o => o.1 == i)).map (·.2)).filter (fun o => o.marker) }
 
 def viewsAux (s : St) (out : List (Nat × OutSample)) : Nat → List TEntry → List View
   | _, [] => []
@@ -414,7 +435,8 @@ def cpuViews (s : St) : List View :=
   let mk (tid name : String) (isMain : Bool) (samples : List OutSample) : View :=
     { pid := "0", tid, pidBase := 0, tidBase := 0, isMain, name, processName := "CPU", start := 0, end_ := none,
       pstart := 0, pend := none, samples }
-  let ncreated := ((allSamples s).map (fun u => cpuOf s.cfg u.tmono + 1)).foldl max 0
+  -- `Cpus::get_mut` is called by `handle_main_event_sample` only (marker items create no CPU thread)
+  let ncreated := (((allSamples s).filter (fun u => !u.marker)).map (fun u => cpuOf s.cfg u.tmono + 1)).foldl max 0
   mk "0" "CPU" true (out.map (·.2)) ::
     (List.range ncreated).map (fun i =>
       mk (if i = 0 then "0.1" else toString i) ("CPU " ++ toString i) false
